@@ -100,3 +100,32 @@ func VerifC03Syllable() {
 	vf.Reach("end")
 	vf.Reach("end-with-bass")
 }
+
+// VerifC03History: one converter reading two chords in a row answers for the second exactly
+// what a fresh converter answers for it alone — nothing remembered from an earlier chord (a
+// cached look-up, a reused buffer) leaks into a later one. 28 keys x 21 x 21 written notes,
+// the second with an optional bass.
+func VerifC03History() {
+	key, _, _, _ := crdx.SupportedKey("k")
+	scale, err := op.NewScale(key)
+	vf.Assume(err == nil)
+	scale2, _ := op.NewScale(key)
+	l1 := vf.NondetIntRange("first.letter", 0, 6)
+	a1 := vf.NondetIntRange("first.acc", -1, 1)
+	l2 := vf.NondetIntRange("second.letter", 0, 6)
+	a2 := vf.NondetIntRange("second.acc", -1, 1)
+	first := &ast.Chord{Degree: verifDegreeNode(l1, a1), Base: &ast.ChordBase{Degree: verifDegreeNode(l2, a2)}}
+	second := &ast.Chord{Degree: verifDegreeNode(l2, a2), Base: &ast.ChordBase{Degree: verifDegreeNode(l1, a1)}}
+	used := NewSyllableChordConverter(scale)
+	used.Convert(first)
+	got, gerr := used.Convert(second)
+	want, werr := NewSyllableChordConverter(scale2).Convert(second)
+	vf.Assert("same-outcome-whatever-was-read-before", (gerr == nil) == (werr == nil))
+	if gerr != nil || werr != nil {
+		vf.Reach("rejected")
+		return
+	}
+	vf.Assert("same-degree-whatever-was-read-before", got.Degree == want.Degree)
+	vf.Assert("same-bass-whatever-was-read-before", (got.Base == nil) == (want.Base == nil) && (got.Base == nil || *got.Base == *want.Base))
+	vf.Reach("end")
+}
